@@ -152,6 +152,13 @@ func c15Cases(tier string, seed int64) []string {
 			l = append(l, fmt.Sprintf("stack:%s:%d", m, k))
 		}
 	}
+	nRace := 3
+	if thorough {
+		nRace = 40
+	}
+	for k := 0; k < nRace; k++ {
+		l = append(l, fmt.Sprintf("race:sessions:%d", k))
+	}
 	if only := os.Getenv("C15_ONLY"); only != "" {
 		// development aid: run only the cases with this prefix
 		var f []string
@@ -224,6 +231,8 @@ func c15Run(c *fw.C, caseID string) {
 		c15RunDisc(c, caseID, parts)
 	case "stack":
 		c15RunStack(c, caseID, parts)
+	case "race":
+		c15RunRace(c, caseID)
 	default:
 		c.Inconclusive("unknown case kind " + caseID)
 	}
